@@ -95,7 +95,9 @@ def run(ctx):
     samples = []
     for i in range(nsess):
         version = r.random() < 0.6
-        steps, srv, s = corr_client.run_session(r, r.randint(2, maxops), {"version": version}, allow_faults=(i % 3 == 0))
+        # every other server sends the names in its listing as literals (a server is free to; Dovecot does for non-ASCII ones)
+        steps, srv, s = corr_client.run_session(r, r.randint(2, maxops), {"version": version, "literal_names": "safe" if i % 2 else False},
+                                                allow_faults=(i % 3 == 0))
         sessions.append(steps)
         for k, st in enumerate(steps[2:], start=2):
             st.before["version"] = version
@@ -128,6 +130,28 @@ def run(ctx):
             want = "ls:%s:%s" % (_m.hexor(n) if make_active else "-", "" if make_active else _m.hexor(n))
             if ("res=" + want) not in lst:
                 viol.append({"op": "listscripts", "what": "listing after the rename differs from the server's state: %s, want %s" % (lst[:80], want)})
+    # directed sessions: a server that lists names as literals; what the client reports must be what the server holds, and
+    # every reported name must be usable as it stands
+    for names in [["lists\\dev", "a"], ['q"uote', "back\\slash", "x"], ["c:\\dir\\f", "été", "sp ace"], ["tail\\", "{5}", "OK"]]:
+        for version in (True, False):
+            srv = _rs.RefServer(r, scripts={}, version=version, literal_names="safe")
+            ses = _m.Session()
+            ses.connect(b"", [], "user", "pw", server=srv)
+            for nm in names:
+                ses.op("putscript", nm, "keep;\r\n")
+            ses.op("setactive", names[-1])
+            lst = ses.op("listscripts")
+            evals += 1 + len(names)
+            nontriv += 1
+            want = "res=ls:%s:%s" % (_m.hexor(names[-1]), ",".join(_m.hexor(x) for x in names[:-1]))
+            if lst.split(" ")[0] != want:
+                viol.append({"op": "listscripts", "what": "names listed as literals: client reports %s, server holds %s" % (lst.split(" ")[0][:120], want[:120])})
+            for nm in names:
+                g = ses.op("getscript", nm)
+                if not g.startswith("res=s:" + _m.hexor("keep;")):
+                    viol.append({"op": "getscript", "what": "getscript(%r) after a literal listing: %s" % (nm, g[:60])})
+            if srv.log:
+                viol.append({"op": "listscripts", "what": "server protocol log: %r" % srv.log})
     # two Client objects alive in one process, connected to servers that differ: each must keep ITS server's view
     import msref, refserver
     for rep in range(20 if ctx.tier == "quick" else 200):
